@@ -20,7 +20,8 @@ RULE = ("interactions: six neutrino types x energies log-uniform in 1e3..1e12 Ge
         "Poisson integers (nominal and stress mode); cross sections on log energy grids; trees: random "
         "add_children histories up to 40 nodes (chains, stars, bushy), single child passed bare, unknown parent, "
         "a particle added twice, trees holding value-equal but distinct Particle objects (equal roots, equal siblings, "
-        "equal cousins, all equal); a case is non-trivial when a draw/branch decision or a non-root node is involved; "
+        "equal cousins, all equal), queries interleaved with add_children after every call; one interaction object read, "
+        "re-assigned (kind / energy / particle id) and read again; a case is non-trivial when a draw/branch decision or a non-root node is involved; "
         "distinct = distinct request lines")
 LEVEL_TEXT = ("theorems over R: inelasticity ranges of both models, fraction bounds incl. the energy-conservation "
               "acceptance test, NC probability, positivity and strict monotonicity of every cross section from the "
@@ -598,6 +599,110 @@ def check_tree(run, nroots, ops, vals=None):
         run.fail_input("tree", inp, observed=impl[:300], what="; ".join(bad))
 
 
+def tree_state_bad(ev, ps, nroots, ops_done):
+    """mutual consistency of iteration / parent / children / level queries for everything added SO FAR"""
+    ident = {id(p): i for i, p in enumerate(ps)}
+    expect_parent, level = {}, {i: 0 for i in range(nroots)}
+    order = list(range(nroots))
+    for par, cs, _ in ops_done:
+        for c in cs:
+            expect_parent[c] = par
+            level[c] = level[par] + 1
+            order.append(c)
+    allp = [ident[id(p)] for p in ev]
+    if sorted(allp) != sorted(order) or len(ev) != len(order):
+        return "iteration does not return every particle exactly once"
+    for i in order:
+        par = ev.get_parent(ps[i])
+        if (None if par is None else ident[id(par)]) != expect_parent.get(i):
+            return "get_parent(%d) is %s, expected %s" % (i, None if par is None else ident[id(par)], expect_parent.get(i))
+        kids = [ident[id(k)] for k in ev.get_children(ps[i])]
+        if sorted(kids) != sorted(c for c, p in expect_parent.items() if p == i):
+            return "get_children(%d) wrong" % i
+    for L in range(max(level.values()) + 2):
+        got = sorted(ident[id(p)] for p in ev.get_from_level(L))
+        if got != sorted(i for i, l in level.items() if l == L):
+            return "get_from_level(%d) wrong" % L
+    return None
+
+
+def check_tree_interleaved(run, nroots, ops, vals=None):
+    """queries INTERLEAVED with add_children: after every single add_children call the parent / children / level /
+    iteration queries must be mutually consistent for every particle added so far - an answer given before a later
+    add must not be frozen"""
+    pp = P()
+    nid = max([nroots] + [c + 1 for _, cs, _ in ops for c in cs])
+    vals = list(vals) if vals is not None else list(range(nid))
+    vals += list(range(len(vals), nid))
+    ps = [pp.Particle("nu_e", (0, 0, -vals[i]), (0, 0, 1), 1e9, interaction_type="cc", interaction_model=pp.Interaction)
+          for i in range(nid)]
+    ev = pp.Event(list(ps[:nroots]))
+    inp = {"nroots": nroots, "ops": [[p, cs, b] for p, cs, b in ops], "values": list(vals)}
+    bad = tree_state_bad(ev, ps, nroots, [])
+    for k, (par, cs, form) in enumerate(ops):
+        if bad:
+            break
+        try:
+            ev.add_children(ps[par], ps[cs[0]] if form is True else (tuple(ps[c] for c in cs) if form == "tuple" else [ps[c] for c in cs]))
+        except ValueError:
+            bad = "add_children raised"
+        else:
+            bad = tree_state_bad(ev, ps, nroots, ops[:k + 1])
+        if bad:
+            bad = "after add_children call %d (queries had been answered after every earlier call): %s" % (k, bad)
+    if bad:
+        run.fail_input("tree-interleaved", inp, observed=bad, what=bad)
+
+
+def check_reassign(run, tname, model, steps):
+    """one Particle / Interaction object READ, then `interaction.kind`, `particle.energy` or `particle.id` re-assigned,
+    then read again: cross_section, total_cross_section, interaction_length, total_interaction_length must be those
+    of the published parameterisation for the FINAL values (= a fresh object), and sigma_cc + sigma_nc = sigma_tot for
+    the default model.  steps: ["read"] | ["kind", "cc"|"nc"] | ["energy", E] | ["id", type name]"""
+    pp = P()
+    old = pp.GQRSInteraction.include_secondaries
+    anti_of = {t[0]: t[2] for t in TYPES}
+    try:
+        pp.GQRSInteraction.include_secondaries = False
+        E, kind, cur = None, None, tname
+        with Tape(run.rng):
+            E = steps[0][1]
+            p = pp.Particle(tname, (0, 0, -1), (0, 0, 1), E, interaction_model=model_cls(model), interaction_type=steps[0][2])
+        kind = steps[0][2]
+        last = {}
+        for k, st in enumerate(steps[1:], 1):
+            if st[0] == "kind":
+                p.interaction.kind = st[1]; kind = st[1]
+            elif st[0] == "energy":
+                p.energy = st[1]; E = st[1]
+            elif st[0] == "id":
+                p.id = st[1]; cur = st[1]
+            else:
+                I = p.interaction
+                got = [float(I.cross_section), float(I.total_cross_section), float(I.interaction_length), float(I.total_interaction_length)]
+                anti = anti_of[cur]
+                s_, t_ = ref_sigma(model, anti, kind, E), ref_total(model, anti, E)
+                want = [s_, t_, 1 / (6.02214076e23 * s_), 1 / (6.02214076e23 * t_)]
+                with Tape(run.rng):
+                    f = pp.Particle(cur, (0, 0, -1), (0, 0, 1), E, interaction_model=model_cls(model), interaction_type=kind).interaction
+                fresh = [float(f.cross_section), float(f.total_cross_section), float(f.interaction_length), float(f.total_interaction_length)]
+                bad = None
+                if not (fw.all_close(got, want, 1e-9, 0.0) and fw.all_close(got, fresh, 1e-12, 0.0)):
+                    bad = "values read after re-assignment differ from those of a fresh object / the published parameterisation"
+                last[kind] = got[0]
+                if model == "ctw" and not bad and set(last) == {"cc", "nc"} and last.get("_E") == (E, cur):
+                    if not fw.close(last["cc"] + last["nc"], got[1], 1e-12, 0.0):
+                        bad = "sigma_cc + sigma_nc read from one object (kind re-assigned) != sigma_total"
+                if last.get("_E") != (E, cur):
+                    last = {kind: got[0], "_E": (E, cur)}
+                if bad:
+                    run.fail_input("reassign", {"type": tname, "model": model, "steps": [list(x) for x in steps[:k + 1]]},
+                                   observed={"step": k, "read": got, "fresh_object": fresh}, expected=want, what=bad)
+                    return
+    finally:
+        pp.GQRSInteraction.include_secondaries = old
+
+
 def ks_uniform(xs):
     xs = sorted(xs)
     n = len(xs)
@@ -640,6 +745,31 @@ def search(run, deep):
         calls[1] = (("nu_mu_bar", 1) if t0[1] == 0 else ("nu_mu", 0)) + (t0[2], t0[3], t0[4])
         run.case(("oracle-interaction-history", str(calls)[:200]))
         check_interaction_history(run, calls)
+    # read - re-assign - read on ONE interaction object
+    for i in range(200 if deep else 24):
+        tname, fl, anti = TYPES[i % 6]
+        model = rng.choice(["gqrs", "ctw", "ctw"])
+        steps = [["create", 10 ** rng.uniform(3, 12), rng.choice(["cc", "nc"])], ["read"]]
+        for k in range(rng.randint(2, 6)):
+            what = rng.choice(["kind", "kind", "energy", "id"])
+            if what == "kind":
+                steps.append(["kind", "nc" if [x for x in steps if x[0] in ("kind", "create")][-1][-1] == "cc" else "cc"])
+            elif what == "energy":
+                steps.append(["energy", 10 ** rng.uniform(3, 12)])
+            else:
+                steps.append(["id", rng.choice([t[0] for t in TYPES])])
+            steps.append(["read"])
+        run.case(("oracle-reassign", tname, model, str(steps)[:160]))
+        check_reassign(run, tname, model, steps)
+    # queries interleaved with add_children
+    for i in range(300 if deep else 30):
+        nroots, ops = random_history(rng, rng.choice([4, 8, 14, 22]), flaws=False)
+        ops = [(p, cs, (b if b in (True, False, "tuple") else False)) for p, cs, b in ops]
+        vals = None
+        if i % 3 == 2:
+            vals = twin_values(rng, nroots, ops, rng.choice(["roots_equal", "few_classes", "cousins"]))
+        run.case(("oracle-tree-interleaved", nroots, str(ops)[:160]))
+        check_tree_interleaved(run, nroots, ops, vals)
     n = 6000 if deep else 400
     for i in range(n):
         c = draw_case(run)
@@ -713,6 +843,10 @@ def replay(run, data):
             check_interaction(run, c)
         finally:
             me.Tape = orig
+    elif k == "tree-interleaved":
+        check_tree_interleaved(run, i["nroots"], [(p, cs, b) for p, cs, b in i["ops"]], i.get("values"))
+    elif k == "reassign":
+        check_reassign(run, i["type"], i["model"], i["steps"])
     elif k == "interaction-history":
         check_interaction_history(run, [tuple(c) for c in i["calls"]])
     elif k == "energy-input":
